@@ -23,6 +23,7 @@ Logged == [c \in Clients |-> E.st.recv[c]]
 Act == \/ IsEvent("Connect") /\ Connect(E.c)
        \/ IsEvent("Auth") /\ Auth(E.c, E.x)
        \/ IsEvent("FollowUp") /\ FollowUp(E.c)
+       \/ IsEvent("AuthRace") /\ AuthRace(E.c)
        \/ IsEvent("Chat") /\ Chat(E.c)
        \/ IsEvent("Beacon") /\ Beacon(E.c)
        \/ IsEvent("Register") /\ Register(E.c)
@@ -47,4 +48,8 @@ MonNothingBeforeAuth ==   \* C06
 MonOperatorsSeeTheStream ==   \* C11: replay on authentication and every broadcast, in order, one frame each
     \A c \in Clients : phase[c] = "authed" => Known(seen[c]) = recv[c]
 MonNobodyBlocked == srv.done /\ srv.locked = <<>>
+(* C06: a refused first message (and anything after it) triggers nothing: the other operators' streams are exactly what they were *)
+MonRefusalIsInert ==
+    last.op \in {"Auth", "FollowUp"} =>
+        \A c \in Clients : phase[c] = "authed" => Known(seen[c]) = recv[c]
 =============================================================================
